@@ -316,17 +316,12 @@ theorem sim_plain_data_s (c : DevConfig) (hx : c.extra = []) (d : DevState) (p :
         simp [h1, h2, h3]
     rw [hres]; exact hrx
 
-/-- **`cycle_refines_event`, every handler state.**  For every host event `e` (bus reset excepted), every
-event-level state `d` satisfying the model's invariant (and `configuration < 256`, which holds along every
-history) and every choice of idle-cycle counts, free input values, streamer latency and `tx.ready` pattern `g` that
-lets a started streamer finish within the event's window: running the cycle-level composition (control endpoint FSM
-+ request multiplexer + standard request handler, endpoint 0, `max_packet_size = 64`) over the expansion of `e`,
-from ANY cycle-level state related to `d`, ends in a state related to the event-level successor, puts exactly the
-event-level response on the bus -- for GET_STATUS / GET_CONFIGURATION / GET_DESCRIPTOR data stages the DATA packet
-whose payload is the bytes the packet generator takes from the `tx` stream, under the handler's data PID -- and
-strobes `address_changed` / `config_changed` so that device.py's registers take the event-level values. -/
-theorem cycle_refines_event_streams (c : DevConfig) (hx : c.extra = []) (hmp : c.maxPacket = 64) (d : DevState)
-    (e : HostEvent) (g : GapsS) (hinv : Inv d) (hcfg : d.config < 256) (hfit : StreamFits c d e g = true)
+/-- The proof of `cycle_refines_event_streams` below; `max_packet_size = 64` is needed only for the event "host ACK"
+(the `start_position` advance of `Device.stdAck`) -- every other event is simulated for EVERY `max_packet_size`
+(Lemmas/C07Mps.lean uses this for the model with the advance by `max_packet_size`). -/
+theorem cycle_refines_event_streams_gen (c : DevConfig) (hx : c.extra = []) (d : DevState)
+    (e : HostEvent) (hmp : e = .handshake PID_ACK → c.maxPacket = 64)
+    (g : GapsS) (hinv : Inv d) (hcfg : d.config < 256) (hfit : StreamFits c d e g = true)
     (hrst : e ≠ .busReset) :
     SimS (cfgOf c) d (core c d e).1 (expandS c d e g) (core c d e).2 := by
   cases e with
@@ -446,7 +441,7 @@ theorem cycle_refines_event_streams (c : DevConfig) (hx : c.extra = []) (hmp : c
       simp only [expandS, if_true]
       rw [hcore]
       exact (sim_idleS c d g.pre).none_append
-        ((SimS.single (sim_hsAck_s c hmp d (calm d g.n1) (calmH_calm _ _))).none_append (sim_idleS c _ g.post))
+        ((SimS.single (sim_hsAck_s c (hmp rfl) d (calm d g.n1) (calmH_calm _ _))).none_append (sim_idleS c _ g.post))
     · have hcore : core c d (.handshake pid) = (d, .none) := by
         simp [core, onHandshake, hp]
       simp only [expandS, hp, if_false]
@@ -459,5 +454,20 @@ theorem cycle_refines_event_streams (c : DevConfig) (hx : c.extra = []) (hmp : c
   | produce e' b l => exact sim_idleS_only c d _ _
   | consume e' k => exact sim_idleS_only c d _ _
   | setSignal e' v => exact sim_idleS_only c d _ _
+
+/-- **`cycle_refines_event`, every handler state.**  For every host event `e` (bus reset excepted), every
+event-level state `d` satisfying the model's invariant (and `configuration < 256`, which holds along every
+history) and every choice of idle-cycle counts, free input values, streamer latency and `tx.ready` pattern `g` that
+lets a started streamer finish within the event's window: running the cycle-level composition (control endpoint FSM
++ request multiplexer + standard request handler, endpoint 0, `max_packet_size = 64`) over the expansion of `e`,
+from ANY cycle-level state related to `d`, ends in a state related to the event-level successor, puts exactly the
+event-level response on the bus -- for GET_STATUS / GET_CONFIGURATION / GET_DESCRIPTOR data stages the DATA packet
+whose payload is the bytes the packet generator takes from the `tx` stream, under the handler's data PID -- and
+strobes `address_changed` / `config_changed` so that device.py's registers take the event-level values. -/
+theorem cycle_refines_event_streams (c : DevConfig) (hx : c.extra = []) (hmp : c.maxPacket = 64) (d : DevState)
+    (e : HostEvent) (g : GapsS) (hinv : Inv d) (hcfg : d.config < 256) (hfit : StreamFits c d e g = true)
+    (hrst : e ≠ .busReset) :
+    SimS (cfgOf c) d (core c d e).1 (expandS c d e g) (core c d e).2 :=
+  cycle_refines_event_streams_gen c hx d e (fun _ => hmp) g hinv hcfg hfit hrst
 
 end LunaVerif.CtrlCyc
